@@ -229,7 +229,7 @@ Proof.
 Qed.
 
 (* CompareNatural is 0 exactly for strings equal up to leading zeros of digit runs *)
-Theorem compare_natural_zero_nf : forall a b, short_runs a -> short_runs b ->
+Theorem compare_natural_zero_nf : forall a b, runs_fit a -> runs_fit b ->
   (compare_natural a b = Ok 0 <-> normal_form a = normal_form b).
 Proof.
   intros a b Ha Hb. rewrite (compare_natural_zero a b Ha Hb). apply key_eq_normal_form.
